@@ -357,7 +357,7 @@ def check_constraint_pair(ctx, objs, eng, f, g, extra_classes=()):
 
 
 def constraint_bucket(kind, f, g):
-    """which constraint decides: re-evaluate the reference on atoms reduced to one part"""
+    """which constraint decides the pair"""
     parts = []
     for name in ("slot", "subslot", "repo"):
         if f.get(name) is not None and g.get(name) is not None and f[name] != g[name]:
@@ -368,8 +368,7 @@ def constraint_bucket(kind, f, g):
             neg, flag, d = M.split_use_token(t)
             o = fu.get(flag)
             if o is not None and M.split_use_token(o)[0] != neg:
-                d2 = M.split_use_token(o)[2]
-                parts.append("use-" + "/".join(sorted(("plain" if x is None else "(+)" if x else "(-)") for x in (d, d2))))
+                parts.append("use" if M.split_use_token(o)[2] == d else "use-defaults-differ")
     return f"{kind}:constraints:{'+'.join(sorted(set(parts))) or 'none'}"
 
 
@@ -378,6 +377,21 @@ def constraint_bucket(kind, f, g):
 _op = st.sampled_from(OPS + ("", "=*"))
 _ver = V.version()
 _i3 = st.integers(0, 3)
+
+
+def canon(ver, rev):
+    """canonical spelling of a version value (no two spellings of one PMS value): `=V*` is textual while every
+    other operator compares values, so =1.0 and =1.00* "intersect" on the package spelled 1.00 only -- that
+    spelling corner is not what C05 is about"""
+    nums, letter, sufs = R.parse(ver)
+    out = [str(int(nums[0]))]
+    for n in nums[1:]:
+        if len(n) > 1 and n[0] == "0":
+            n = n.rstrip("0") or "0"
+        out.append(n)
+    v = ".".join(out) + letter + "".join(f"_{t}{n if n else ''}" for t, n in sufs)
+    r = R.rev_int(rev)
+    return v, (str(r) if r else None)
 
 
 @st.composite
@@ -390,7 +404,7 @@ def hyp_pair(draw):
             out.append(A.mkatom())
             continue
         how = draw(_i3)
-        v, r = base if how == 0 else draw(V.mutated(base))
+        v, r = canon(*(base if how == 0 else draw(V.mutated(base))))
         if op == "~":
             r = None
         out.append(A.mkatom(op=op, ver=v, rev=r))
@@ -409,13 +423,13 @@ def check_hyp_pair(ctx, objs, f, g):
 
 
 def plan(tier, seed):
-    A._imports()
+    A.preload()
     tasks = []
     for i in range(8):
         tasks.append({"task": "versions", "slice": i, "nslices": 8})
     for i in range(4):
         tasks.append({"task": "constraints", "slice": i, "nslices": 4})
-    n, ex = (4, 400) if tier == "quick" else (16, 12000)
+    n, ex = (4, 250) if tier == "quick" else (16, 8000)
     for i in range(n):
         tasks.append({"task": "hyp", "examples": ex})
     return tasks
